@@ -92,6 +92,9 @@ func (nd *node) fillStatFrom(name string) *OrefaInfo {
 
 // dirEntries returns a slice of fs.DirEntry from a directory ordered by name.
 func (nd *node) dirEntries() []fs.DirEntry {
+	avfs.VerifBatchBegin()
+	defer avfs.VerifBatchEnd()
+
 	l := len(nd.children)
 	if l == 0 {
 		return nil
